@@ -18,17 +18,16 @@ def _nontrivial(req, out):
 
 CFG = {
     "level": "proof",
-    "level_text": "Lean 4 theorems over the hand-written model of the jq printers (Model/JqOutput.lean), all full strength "
-                  "(no _partial except the identity fast path): print_read / print_read_value - the reference RFC 8259 reader "
-                  "(any whitespace, strict strings, duplicates kept) applied to the printed text returns the route's prepared "
-                  "value (collapsed, -S-sorted) for every well-formed value, every option set and every route, numbers related "
-                  "through the re-spelling's law; collapse_spec - first position / last value / no repeated key; sorted_keys - "
-                  "-S output has strictly increasing keys (scalar-value = UTF-8 byte order); ascii_only - -a output is ASCII; "
-                  "print_framing - RS prefix / NUL / newline framing. Not proved: that the reader's output on an arbitrary valid "
-                  "text is well-formed (checked by the driver per document) and reader locality for the echoing identity fast "
-                  "path (print_fast_read_partial covers printer images). Tie (translation validation of the CLI routes): CLI "
-                  "stdout bytes = model bytes on generated documents x pairwise-covering flag sets, plus an in-harness "
-                  "strict-reader oracle.",
+    "level_text": "Lean 4 theorems over the hand-written model of the jq printers (Model/JqOutput.lean), all at full strength: "
+                  "print_read / print_read_value / input_print_read - the reference RFC 8259 reader (any whitespace, strict "
+                  "strings, duplicates kept) applied to the printed text returns the route's prepared value (collapsed, "
+                  "-S-sorted) for every input the reader accepts (input_wf), every option set and every route, numbers "
+                  "related through the re-spelling's law; print_fast_read - the echoing identity fast path, for every span "
+                  "(reader locality + fuel monotonicity); collapse_spec - first position / last value / no repeated key; "
+                  "sorted_keys - -S output has strictly increasing keys (scalar-value = UTF-8 byte order); ascii_only - -a "
+                  "output is ASCII; print_framing - RS prefix / NUL / newline framing. Tie (translation validation of the CLI "
+                  "routes): CLI stdout bytes = model bytes on generated documents x pairwise-covering flag sets, plus an "
+                  "in-harness strict-reader oracle.",
     "level_note": "Number re-spelling (format_number_jq_compat) is a parameter of the model (property C10 owns it); the "
                   "driver checks on every number of every request that the re-spelling is an RFC 8259 number denoting the "
                   "same double (exact decimal->binary64 in Lean). Rust core f64 parsing is trusted in the harness oracle.",
@@ -40,7 +39,8 @@ CFG = {
                    "SuccinctlyVerif/Model/JqOutput.lean"],
     "generated": [],
     "required_theorems": ["SV.Props.C11.print_read", "SV.Props.C11.print_read_value", "SV.Props.C11.collapse_spec",
-                          "SV.Props.C11.sorted_keys", "SV.Props.C11.ascii_only", "SV.Props.C11.print_framing"],
+                          "SV.Props.C11.sorted_keys", "SV.Props.C11.ascii_only", "SV.Props.C11.print_framing",
+                          "SV.Props.C11.print_fast_read", "SV.Props.C11.input_wf", "SV.Props.C11.input_print_read"],
     "canon": _canon,
     "nontrivial": _nontrivial,
     "rule": "request = one CLI process (flag set x program x 1-8 documents); distinct request lines whose documents contain a container",
